@@ -52,4 +52,28 @@ REGISTRY = {
         assumptions=["Line.frameEnd is the IMAP framing rule (scan to CRLF; a line ending in {n} is followed by n literal bytes); the harness has an independently written framer with the same rule"],
         explanation="LineOpen parseResponse: Incomplete implies the buffer is a Seg followed by an open tail; an open buffer holds no complete frame (induction over Seg, generalised over the current line's prefix); hence a complete frame is never answered Incomplete. LineEnd: an accept is a Seg followed by CRLF.",
     ),
+    "C10": dict(
+        crate="vh-proto", bin="vh_builders",
+        component="builders (CommandBuilder::{login,list,select,examine} vs Builders.login/list/select)",
+        module="ImapVerif.Properties.C10",
+        theorems=["C10.quoted_refuses_iff_crlf", "C10.quoted_never_panics", "C10.quoted_ok", "C10.unescape_quoted",
+                  "C10.quoted_no_crlf", "C10.two_args_lex", "C10.login_line_lexes", "C10.list_line_lexes",
+                  "C10.select_line_lexes", "C10.two_args_refused", "C10.encode_single_line",
+                  "Quoted.escape_utf8"],
+        assumptions=["a Rust &str is valid UTF-8 (hypothesis validUtf8 of the theorems)",
+                     "NUL and 8-bit bytes inside the quotes are outside the property (it speaks about the two escapes and CR/LF)",
+                     "the bytes the client writes are covered by the client-side checks (C06) through the same Builders.encode"],
+        explanation="escape / quotedString are total functions on byte strings; an independent lexer of quoted strings recovers exactly the text given for every string without CR/LF, CR/LF is refused, and UTF-8 validity is preserved (so the internal unwrap cannot fire)",
+    ),
+    "C14": dict(
+        crate="vh-proto", bin="vh_builders",
+        component="builders (FetchCommand typestate chain vs Builders.fetchCommand)",
+        module="ImapVerif.Properties.C14",
+        theorems=["C14.fetch_grammatical", "C14.no_second_changed_since", "C14.run_reach", "C14.step_reach",
+                  "C14.attrName_rfc", "C14.macroName_rfc"],
+        observed=["that rustc admits exactly the transitions of Builders.step: every chain the harness enumerates is compiled Rust calling the real typestate methods (enum over FetchCommand<fetch::*>); the absent transitions are not callable"],
+        assumptions=["message numbers and mod-sequence values are non-zero (quantifier of the property)",
+                     "SELECT / EXAMINE / LOGIN / LIST lines are covered by C10's lexer theorems; CHECK / CLOSE are constants compared by the correspondence"],
+        explanation="CmdGrammar is the fetch production of RFC 3501 / 4466 / 4551 as derivation relations; fetch_grammatical: every call sequence accepted by the typestate machine yields a derivable line whose AST is exactly the call list",
+    ),
 }
